@@ -30,29 +30,34 @@ def g(src, why, props=None):
     return d
 
 
+def len_eq(slice_re, n):
+    """Length equality test in any form: `!= n`, `== n`, or an arm of `match len`."""
+    return r"lencmp:%s ((Ne|Eq) %s|match (\d+,)*%s(,\d+)*)" % (slice_re, n, n)
+
+
 def call(callee, args=ANY, at=r"[A-Za-z0-9_:]+"):
     return r"call:%s\(%s\)@%s#\d+" % (callee, args, at)
 
 
 # ---------------- C07: Ed25519 / Ed448 verification ----------------
 fam(r"crrl::ed25519::PublicKey::verify_(raw|ctx|ph)", ["C07"], [
-    g(r"lencmp:sig Ne 64", "RFC 8032 5.1.7: signature length is exactly 64 bytes"),
+    g(len_eq("sig", 64), "RFC 8032 5.1.7: signature length is exactly 64 bytes"),
     g(call(r"Point::decode", r"sig\[0\.\.32\]"), "R is decoded with the strict point decoder from sig[0..32]"),
     g(call(r"ModInt256::decode32", r"sig\[32\.\.64\]"), "S is decoded with the strict (non-reducing) scalar decoder from sig[32..64] (S < L)"),
     g(call(r"Point::verify_helper_vartime"), "the (cofactored) verification equation result decides acceptance"),
-    g(call(r"GF255::decode32", ANY, r"Point::set_decode"), "canonical y coordinate of R"),
-    g(call(r"GF255::equals", ANY, r"Point::set_decode"), "R on curve (square-root test)"),
-    g(call(r"GF255::iszero", ANY, r"Point::set_decode"), "x = 0 with sign bit 1 rejected"),
+    g(call(r"GF255::decode32", ANY, r"Point::\w+"), "canonical y coordinate of R"),
+    g(call(r"GF255::equals", ANY, r"Point::\w+"), "R on curve (square-root test)"),
+    g(call(r"GF255::iszero", ANY, r"Point::\w+"), "x = 0 with sign bit 1 rejected"),
 ], forbid=[g(r"call:\w+::(set_)?decode\w*reduce\w*\((sig|\*sig|bswap\(sig)[^)]*\)@PublicKey::verify\w*#\d+", "signature bytes must never enter a reducing decoder")])
 fam(r"crrl::ed448::PublicKey::verify_(raw|ctx|ph)", ["C07"], [
-    g(r"lencmp:sig Ne 114", "RFC 8032 5.2.7: signature length is exactly 114 bytes"),
+    g(len_eq("sig", 114), "RFC 8032 5.2.7: signature length is exactly 114 bytes"),
     g(call(r"Point::decode", r"sig\[0\.\.57\]"), "R strictly decoded from sig[0..57]"),
     g(call(r"Scalar::decode_ct", r"sig\[57\.\.113\]"), "S strictly decoded (S < L) from sig[57..113]"),
     g(r"elemcmp:sig\[113\] (Ne|Eq) 0", "the 114th byte (top byte of S) must be exactly zero"),
     g(call(r"Point::verify_helper_vartime"), "verification equation"),
-    g(call(r"GF448::decode_ct", ANY, r"Point::set_decode"), "canonical y coordinate of R"),
-    g(call(r"GF448::equals", ANY, r"Point::set_decode"), "R on curve"),
-    g(call(r"GF448::iszero", ANY, r"Point::set_decode"), "x = 0 with sign bit 1 rejected"),
+    g(call(r"GF448::decode_ct", ANY, r"Point::\w+"), "canonical y coordinate of R"),
+    g(call(r"GF448::equals", ANY, r"Point::\w+"), "R on curve"),
+    g(call(r"GF448::iszero", ANY, r"Point::\w+"), "x = 0 with sign bit 1 rejected"),
 ], forbid=[g(r"call:\w+::(set_)?decode\w*reduce\w*\((sig|\*sig)[^)]*\)@PublicKey::verify\w*#\d+", "signature bytes must never enter a reducing decoder")])
 fam(r"crrl::ed(25519|448)::PublicKey::decode", ["C07", "C06"], [
     g(call(r"Point::decode", r"buf"), "public key A is decoded with the strict point decoder"),
@@ -60,49 +65,49 @@ fam(r"crrl::ed(25519|448)::PublicKey::decode", ["C07", "C06"], [
 
 # ---------------- C06: group decoders (status word of set_decode) ----------------
 fam(r"crrl::ed25519::Point::set_decode", ["C06"], [
-    g(r"lencmp:buf (Ne|Eq) 32", "length 32"),
-    g(call(r"GF255::decode32", ANY, r"Point::set_decode"), "canonical y (RFC 8032 5.1.3 step 1)"),
-    g(call(r"GF255::equals", ANY, r"Point::set_decode"), "x^2 = u/v has a root: both candidate tests (step 3)"),
-    g(call(r"GF255::iszero", ANY, r"Point::set_decode"), "x = 0 and sign bit set is rejected (step 4)"),
+    g(len_eq("buf", 32), "length 32"),
+    g(call(r"GF255::decode32", ANY, r"Point::\w+"), "canonical y (RFC 8032 5.1.3 step 1)"),
+    g(call(r"GF255::equals", ANY, r"Point::\w+"), "x^2 = u/v has a root: both candidate tests (step 3)"),
+    g(call(r"GF255::iszero", ANY, r"Point::\w+"), "x = 0 and sign bit set is rejected (step 4)"),
 ])
 fam(r"crrl::ed448::Point::set_decode", ["C06"], [
-    g(r"lencmp:buf (Ne|Eq) 57", "length 57"),
-    g(call(r"GF448::decode_ct", ANY, r"Point::set_decode"), "canonical y (RFC 8032 5.2.3)"),
-    g(call(r"GF448::equals", ANY, r"Point::set_decode"), "square-root test"),
-    g(call(r"GF448::iszero", ANY, r"Point::set_decode"), "x = 0 and sign bit set is rejected"),
+    g(len_eq("buf", 57), "length 57"),
+    g(call(r"GF448::decode_ct", ANY, r"Point::\w+"), "canonical y (RFC 8032 5.2.3)"),
+    g(call(r"GF448::equals", ANY, r"Point::\w+"), "square-root test"),
+    g(call(r"GF448::iszero", ANY, r"Point::\w+"), "x = 0 and sign bit set is rejected"),
 ])
 fam(r"crrl::(p256|secp256k1)::Point::set_decode", ["C06", "C08"], [
-    g(r"lencmp:buf Eq 1", "SEC1: one-byte point at infinity"),
-    g(r"lencmp:buf Eq 33", "SEC1: compressed"),
-    g(r"lencmp:buf Eq 65", "SEC1: uncompressed"),
-    g(call(r"\w+::decode32", r"bswap\(buf\[1\.\.33\]\)", r"Point::set_decode"), "canonical x"),
-    g(call(r"\w+::decode32", r"bswap\(buf\[33\.\.65\]\)", r"Point::set_decode"), "canonical y (uncompressed)"),
-    g(call(r"\w+::(set_)?sqrt", ANY, r"Point::set_decode"), "y recovered by square root: on-curve test (compressed)"),
-    g(call(r"\w+::equals", ANY, r"Point::set_decode"), "curve equation test (uncompressed)"),
+    g(len_eq("buf", 1), "SEC1: one-byte point at infinity"),
+    g(len_eq("buf", 33), "SEC1: compressed"),
+    g(len_eq("buf", 65), "SEC1: uncompressed"),
+    g(call(r"\w+::decode32", r"bswap\(buf\[1\.\.33\]\)", r"Point::\w+"), "canonical x"),
+    g(call(r"\w+::decode32", r"bswap\(buf\[33\.\.65\]\)", r"Point::\w+"), "canonical y (uncompressed)"),
+    g(call(r"\w+::(set_)?sqrt", ANY, r"Point::\w+"), "y recovered by square root: on-curve test (compressed)"),
+    g(call(r"\w+::equals", ANY, r"Point::\w+"), "curve equation test (uncompressed)"),
 ])
 fam(r"crrl::ristretto255::Point::set_decode", ["C06"], [
-    g(r"lencmp:buf (Ne|Eq) 32", "length 32"),
-    g(call(r"GF255::decode32", r"buf", r"Point::set_decode"), "canonical s (RFC 9496 4.3.1)"),
-    g(call(r"Point::is_negative", ANY, r"Point::set_decode"), "s non-negative and t non-negative"),
-    g(call(r"Point::sqrt_ratio_m1", ANY, r"Point::set_decode"), "was_square"),
-    g(call(r"GF255::iszero", ANY, r"Point::set_decode"), "y != 0"),
+    g(len_eq("buf", 32), "length 32"),
+    g(call(r"GF255::decode32", r"buf", r"Point::\w+"), "canonical s (RFC 9496 4.3.1)"),
+    g(call(r"Point::is_negative", ANY, r"Point::\w+"), "s non-negative and t non-negative"),
+    g(call(r"Point::sqrt_ratio_m1", ANY, r"Point::\w+"), "was_square"),
+    g(call(r"GF255::iszero", ANY, r"Point::\w+"), "y != 0"),
 ])
 fam(r"crrl::decaf448::Point::set_decode", ["C06"], [
-    g(r"lencmp:buf (Ne|Eq) 56", "length 56"),
-    g(call(r"GF448::decode_ct", r"buf", r"Point::set_decode"), "canonical s (RFC 9496 5.3.1)"),
-    g(call(r"Point::is_negative", ANY, r"Point::set_decode"), "s non-negative"),
-    g(call(r"(Point::(isqrt|set_isqrt|sqrt_ratio_m1)|GF448::(set_)?sqrt\w*|GF448::legendre)", ANY, r"Point::set_decode"), "was_square"),
+    g(len_eq("buf", 56), "length 56"),
+    g(call(r"GF448::decode_ct", r"buf", r"Point::\w+"), "canonical s (RFC 9496 5.3.1)"),
+    g(call(r"Point::is_negative", ANY, r"Point::\w+"), "s non-negative"),
+    g(call(r"(Point::(isqrt|set_isqrt|sqrt_ratio_m1)|GF448::(set_)?sqrt\w*|GF448::legendre)", ANY, r"Point::\w+"), "was_square"),
 ])
 fam(r"crrl::(jq255e|jq255s)::Point::set_decode", ["C06", "C09"], [
-    g(r"lencmp:buf (Ne|Eq) 32", "length 32"),
-    g(call(r"GF255::decode32", r"buf", r"Point::set_decode"), "canonical u"),
+    g(len_eq("buf", 32), "length 32"),
+    g(call(r"GF255::decode32", r"buf", r"Point::\w+"), "canonical u"),
     g(call(r"GF255::(set_)?sqrt\w*", ANY, ANY), "e recovered by square root: (a^2-4b)u^4 - 2au^2 + 1 must be a square"),
 ])
 fam(r"crrl::gls254::Point::set_decode", ["C06", "C09"], [
-    g(r"lencmp:buf (Ne|Eq) 32", "length 32"),
-    g(call(r"GFb254::decode_ct", r"buf", r"Point::set_decode"), "canonical w (top bits of both halves clear)"),
-    g(call(r"GFb254::trace", ANY, r"Point::set_decode"), "trace conditions of the (x,s) decoding"),
-    g(call(r"GFb254::iszero", ANY, r"Point::set_decode"), "w = 0 handling (neutral)"),
+    g(len_eq("buf", 32), "length 32"),
+    g(call(r"GFb254::decode_ct", r"buf", r"Point::\w+"), "canonical w (top bits of both halves clear)"),
+    g(call(r"GFb254::trace", ANY, r"Point::\w+"), "trace conditions of the (x,s) decoding"),
+    g(call(r"GFb254::iszero", ANY, r"Point::\w+"), "w = 0 handling (neutral)"),
 ])
 fam(r"crrl::(ed25519|ed448|p256|secp256k1|ristretto255|decaf448|jq255e|jq255s|gls254)::Point::decode", ["C06"], [
     g(call(r"Point::set_decode", r"buf"), "Option result is Some only under the status of set_decode"),
@@ -113,46 +118,46 @@ fam(r"crrl::(p256|secp256k1)::PublicKey::verify_hash", ["C08"], [
     g(r"lencmp:\(len\(sig\) BitAnd 1\) (Ne|Eq) 0", "signature length is even"),
     g(r"elemcmp:sig\[i\] Ne 0", "surplus leading bytes of r are zero"),
     g(r"elemcmp:sig\[\(\(len\(sig\) Shr 1\) Add i\)\] Ne 0", "surplus leading bytes of s are zero"),
-    g(call(r"\w+::decode32", r"bswap\(local:\w+\)", r"PublicKey::verify_hash"), "r and s are decoded strictly (below n)"),
-    g(call(r"\w+::iszero", r"res:decode32\(bswap\(local:\w+\)\)", r"PublicKey::verify_hash"), "r != 0 and s != 0"),
-    g(call(r"\w+::equals", r"res:decode32" + ANY, r"PublicKey::verify_hash"), "x(R) mod n == r"),
+    g(call(r"\w+::decode32", r"bswap\(local:\w+\)", r"(PublicKey|p256|secp256k1)::\w+"), "r and s are decoded strictly (below n)"),
+    g(call(r"\w+::iszero", r"res:decode32\(bswap\(local:\w+\)\)", r"(PublicKey|p256|secp256k1)::\w+"), "r != 0 and s != 0"),
+    g(call(r"\w+::equals", r"res:decode32" + ANY, r"(PublicKey|p256|secp256k1)::\w+"), "x(R) mod n == r"),
 ])
 fam(r"crrl::(p256|secp256k1)::PrivateKey::decode", ["C08"], [
-    g(r"lencmp:buf (Ne|Eq) 32", "private key length 32"),
+    g(len_eq("buf", 32), "private key length 32"),
     g(call(r"\w+::decode32", r"bswap\(buf\)"), "strict decoding: below n"),
     g(call(r"\w+::iszero", r"res:decode32\(bswap\(buf\)\)"), "non-zero"),
 ])
 fam(r"crrl::(p256|secp256k1)::PublicKey::decode", ["C08", "C06"], [
     g(call(r"Point::decode", r"buf"), "strict point decoding"),
-    g(call(r"Point::isneutral", ANY, r"PublicKey::decode"), "the point at infinity is not a valid public key"),
+    g(call(r"Point::isneutral", ANY, r"(PublicKey|p256|secp256k1|jq255e|jq255s|gls254)::\w+"), "the point at infinity is not a valid public key"),
 ])
 
 # ---------------- C09: jq255e / jq255s / gls254 ----------------
 fam(r"crrl::(jq255e|jq255s|gls254)::PublicKey::verify", ["C09"], [
-    g(r"lencmp:sig (Ne|Eq) 48", "signature length is exactly 48 bytes"),
-    g(call(r"\w+::decode32", r"sig\[16\.\.48\]", r"PublicKey::verify"), "s is a canonical scalar"),
-    g(call(r"slice_eq", r"(local:\w+,sig\[0\.\.16\]|sig\[0\.\.16\],local:\w+)", r"PublicKey::verify"), "recomputed challenge equals c"),
+    g(len_eq("sig", 48), "signature length is exactly 48 bytes"),
+    g(call(r"\w+::decode32", r"sig\[16\.\.48\]", r"(PublicKey|jq255e|jq255s|gls254|LMS\w+)::\w+"), "s is a canonical scalar"),
+    g(call(r"slice_eq", r"(local:\w+,sig\[0\.\.16\]|sig\[0\.\.16\],local:\w+)", r"(PublicKey|jq255e|jq255s|gls254|LMS\w+)::\w+"), "recomputed challenge equals c"),
 ])
 fam(r"crrl::(jq255e|jq255s|gls254)::PrivateKey::ECDH", ["C09"], [
-    dict(src=call(r"Point::set_decode", r"peer_pk", r"PrivateKey::ECDH"), why="the returned KEY (not only the status) is switched on the decoding status", field=0),
-    dict(src=call(r"Point::isneutral", ANY, r"PrivateKey::ECDH"), why="the returned KEY is switched to the secret-derived substitute for a neutral peer key too", field=0),
-    dict(src=call(r"Point::set_decode", r"peer_pk", r"PrivateKey::ECDH"), why="status word depends on decoding", field=1),
-    dict(src=call(r"Point::isneutral", ANY, r"PrivateKey::ECDH"), why="status word depends on the neutral test", field=1),
-    g(call(r"Point::set_decode", r"peer_pk", r"PrivateKey::ECDH"), "peer key decoding status"),
-    g(call(r"Point::isneutral", ANY, r"PrivateKey::ECDH"), "neutral peer key is a failure"),
+    dict(src=call(r"Point::set_decode", r"peer_pk", r"(PrivateKey|jq255e|jq255s|gls254)::\w+"), why="the returned KEY (not only the status) is switched on the decoding status", field=0),
+    dict(src=call(r"Point::isneutral", ANY, r"(PrivateKey|jq255e|jq255s|gls254)::\w+"), why="the returned KEY is switched to the secret-derived substitute for a neutral peer key too", field=0),
+    dict(src=call(r"Point::set_decode", r"peer_pk", r"(PrivateKey|jq255e|jq255s|gls254)::\w+"), why="status word depends on decoding", field=1),
+    dict(src=call(r"Point::isneutral", ANY, r"(PrivateKey|jq255e|jq255s|gls254)::\w+"), why="status word depends on the neutral test", field=1),
+    g(call(r"Point::set_decode", r"peer_pk", r"(PrivateKey|jq255e|jq255s|gls254)::\w+"), "peer key decoding status"),
+    g(call(r"Point::isneutral", ANY, r"(PrivateKey|jq255e|jq255s|gls254)::\w+"), "neutral peer key is a failure"),
 ])
 fam(r"crrl::(jq255e|jq255s|gls254)::PublicKey::decode", ["C09", "C06"], [
     g(call(r"Point::decode", r"buf"), "strict point decoding"),
-    g(call(r"Point::isneutral", ANY, r"PublicKey::decode"), "neutral is not a valid public key"),
+    g(call(r"Point::isneutral", ANY, r"(PublicKey|p256|secp256k1|jq255e|jq255s|gls254)::\w+"), "neutral is not a valid public key"),
 ])
 fam(r"crrl::(jq255e|jq255s|gls254)::PrivateKey::decode", ["C09"], [
     g(call(r"\w+::decode32", r"buf"), "strict scalar decoding"),
-    g(call(r"\w+::iszero", ANY, r"PrivateKey::decode"), "zero is not a valid private key"),
+    g(call(r"\w+::iszero", ANY, r"(PrivateKey|jq255e|jq255s|gls254)::\w+"), "zero is not a valid private key"),
 ])
 
 # ---------------- C05: field / scalar codecs ----------------
 fam(r"crrl::backend::(\w+::)+(GF255|GF448|GFsecp256k1|ModInt256|ModInt256ct|GFb127)::set_decode_ct|crrl::ed448::scalarmod::Scalar::set_decode_ct", ["C05"], [
-    g(r"lencmp:buf (Ne|Eq) (16|32|56)", "wrong length takes the failure path"),
+    g(len_eq("buf", r"(16|32|56|sym:\w+)"), "wrong length takes the failure path"),
 ])
 fam(r"crrl::backend::(\w+::)+(GF255|GF448|GFsecp256k1|ModInt256|ModInt256ct|GFb127|GFb254)::decode|crrl::ed448::scalarmod::Scalar::decode", ["C05"], [
     g(call(r"\w+::(set_)?decode(32|_ct)", r"buf"), "Option result is Some only under the status of the strict decoder"),
@@ -163,65 +168,65 @@ fam(r"crrl::backend::(\w+::)+(GF255|GF448|GFsecp256k1|GFb127|ModInt256|ModInt256
 
 # ---------------- C13: truncated verification ----------------
 fam(r"crrl::ed25519::PublicKey::verify_trunc_(raw|ctx|ph)", ["C13"], [
-    g(r"lencmp:sig (Ne|Eq) 64", "signature length"),
-    g(call(r"Point::decode", r"local:\w+\[0\.\.32\]", r"PublicKey::verify_trunc_inner"), "R strictly decoded"),
-    g(call(r"Point::equals", ANY, r"PublicKey::verify_trunc_inner"), "Some(sig) only when the candidate point matches (full check of the reconstructed signature)"),
+    g(len_eq("sig", 64), "signature length"),
+    g(call(r"Point::decode", r"local:\w+\[0\.\.32\]", r"(PublicKey|ed25519)::\w+"), "R strictly decoded"),
+    g(call(r"Point::equals", ANY, r"(PublicKey|ed25519)::\w+"), "Some(sig) only when the candidate point matches (full check of the reconstructed signature)"),
 ])
 fam(r"crrl::p256::PublicKey::verify_trunc_hash", ["C13"], [
-    g(r"lencmp:sig (Ne|Eq) 64", "signature length"),
-    g(call(r"\w+::decode32", r"bswap\(local:\w+\[\.\.32\]\)", r"PublicKey::verify_trunc_hash"), "r strictly decoded (r < n)"),
-    g(call(r"\w+::iszero", r"res:decode32" + ANY, r"PublicKey::verify_trunc_hash"), "r != 0"),
-    g(call(r"Point::equals", ANY, r"PublicKey::verify_trunc_hash"), "Some(sig) only when the reconstructed point matches"),
-], forbid=[g(r"call:\w+::decode_reduce\(bswap\(local:\w+\[\.\.32\]\)\)@PublicKey::verify_trunc_hash#\d+", "r must not be reduced")])
+    g(len_eq("sig", 64), "signature length"),
+    g(call(r"\w+::decode32", r"bswap\(local:\w+\[0\.\.32\]\)", r"(PublicKey|p256)::\w+"), "r strictly decoded (r < n)"),
+    g(call(r"\w+::iszero", r"res:decode32" + ANY, r"(PublicKey|p256)::\w+"), "r != 0"),
+    g(call(r"Point::equals", ANY, r"(PublicKey|p256)::\w+"), "Some(sig) only when the reconstructed point matches"),
+], forbid=[g(r"call:\w+::decode_reduce\(bswap\(local:\w+\[0\.\.32\]\)\)@\w+::\w+#\d+", "r must not be reduced")])
 
 # ---------------- C15: FROST ----------------
 fam(r"crrl::frost::[a-z0-9]+::(SignatureShare|SignerPublicKey|Nonce|Commitment|Signature|GroupPrivateKey|SignerPrivateKeyShare|GroupPublicKey)::decode", ["C15"], [
-    g(r"lencmp:buf (Ne|Eq) \d+", "exact encoded length"),
+    g(len_eq("buf", r"(\d+|sym:\w+)"), "exact encoded length"),
     g(call(r"[a-z0-9]+::(scalar_decode|point_decode)", r"buf" + ANY), "every field goes through the suite's strict decoder"),
 ])
 fam(r"crrl::frost::[a-z0-9]+::(SignatureShare|SignerPublicKey|Nonce|Commitment|SignerPrivateKeyShare)::decode", ["C15"], [
-    g(call(r"\w+::iszero", ANY, r"\w+::decode"), "identifier must be non-zero"),
+    g(call(r"\w+::iszero", ANY, r"\w+::\w+"), "identifier must be non-zero"),
 ])
 fam(r"crrl::frost::[a-z0-9]+::Commitment::decode_list", ["C15"], [
     g(r"lencmp:\(len\(buf\) Rem \d+\) (Ne|Eq) 0", "no trailing garbage"),
-    g(call(r"Commitment::decode", ANY, r"Commitment::decode_list"), "each element strictly decoded"),
-    g(call(r"[a-z0-9]+::scalar_cmp_vartime", ANY, r"Commitment::decode_list"), "identifiers strictly increasing"),
+    g(call(r"Commitment::decode", ANY, r"(Commitment|[a-z0-9]+)::\w+"), "each element strictly decoded"),
+    g(call(r"[a-z0-9]+::scalar_cmp_vartime", ANY, r"(Commitment|[a-z0-9]+)::\w+"), "identifiers strictly increasing"),
 ])
 fam(r"crrl::frost::[a-z0-9]+::SignerPrivateKeyShare::sign", ["C15"], [
     g(r"lencmp:commitment_list Lt 2", "at least two commitments"),
-    g(call(r"[a-z0-9]+::scalar_cmp_vartime", ANY, r"SignerPrivateKeyShare::sign"), "list sorted without duplicates"),
-    g(call(r"\w+::equals", ANY, r"SignerPrivateKeyShare::sign"), "own identifier is in the list and own commitment matches"),
+    g(call(r"[a-z0-9]+::scalar_cmp_vartime", ANY, r"(SignerPrivateKeyShare|[a-z0-9]+)::\w+"), "list sorted without duplicates"),
+    g(call(r"\w+::equals", ANY, r"(SignerPrivateKeyShare|[a-z0-9]+)::\w+"), "own identifier is in the list and own commitment matches"),
 ])
 fam(r"crrl::frost::[a-z0-9]+::SignerPublicKey::verify_signature_share", ["C15"], [
     g(call(r"[a-z0-9]+::commitment_list_is_sorted", ANY, ANY), "list sorted without duplicates"),
-    g(call(r"Point::verify_helper_vartime", ANY, r"SignerPublicKey::inner_verify_signature_share"), "share equation"),
-    g(call(r"\w+::equals", ANY, r"SignerPublicKey::inner_verify_signature_share"), "share identifier matches this signer"),
+    g(call(r"Point::verify_helper_vartime", ANY, r"(SignerPublicKey|[a-z0-9]+)::\w+"), "share equation"),
+    g(call(r"\w+::equals", ANY, r"(SignerPublicKey|[a-z0-9]+)::\w+"), "share identifier matches this signer"),
 ])
 fam(r"crrl::frost::[a-z0-9]+::Coordinator::assemble_signature", ["C15"], [
     g(call(r"[a-z0-9]+::commitment_list_is_sorted", ANY, ANY), "list sorted without duplicates"),
-    g(call(r"Point::verify_helper_vartime", ANY, r"Coordinator::assemble_signature"), "aggregate signature verified before being returned"),
-    g(call(r"Point::verify_helper_vartime", ANY, r"SignerPublicKey::inner_verify_signature_share"), "every share verified"),
+    g(call(r"Point::verify_helper_vartime", ANY, r"(Coordinator|[a-z0-9]+)::\w+"), "aggregate signature verified before being returned"),
+    g(call(r"Point::verify_helper_vartime", ANY, r"(SignerPublicKey|[a-z0-9]+)::\w+"), "every share verified"),
 ])
 fam(r"crrl::frost::[a-z0-9]+::GroupPublicKey::verify", ["C15"], [
-    g(call(r"Point::verify_helper_vartime", ANY, r"GroupPublicKey::verify"), "signature equation"),
+    g(call(r"Point::verify_helper_vartime", ANY, r"(GroupPublicKey|[a-z0-9]+)::\w+"), "signature equation"),
 ])
 fam(r"crrl::frost::[a-z0-9]+::SignerPrivateKeyShare::verify_split", ["C15"], [
     g(call(r"Point::equals", ANY, ANY), "share consistent with the dealer's commitment"),
 ])
 
 fam(r"crrl::frost::ed448::scalar_decode", ["C15"], [
-    g(r"lencmp:buf (Ne|Eq) 57", "draft-irtf-cfrg-frost: Ed448 scalars are encoded over 57 bytes"),
+    g(len_eq("buf", 57), "draft-irtf-cfrg-frost: Ed448 scalars are encoded over 57 bytes"),
     g(r"elemcmp:buf\[56\] (Ne|Eq) 0", "the 57th byte must be exactly zero (compared unmasked)"),
-    g(call(r"Scalar::decode", r"(buf\[\.\.56\]|buf\[0\.\.56\])"), "the first 56 bytes go through the strict scalar decoder"),
+    g(call(r"Scalar::decode", r"buf\[0\.\.56\]"), "the first 56 bytes go through the strict scalar decoder"),
 ])
 
 # ---------------- C16: LMS verify ----------------
 fam(r"crrl::lms::[A-Za-z0-9_]+::PublicKey::verify", ["C16"], [
-    g(r"lencmp:sig (Ne|Eq) \d+", "exact signature size"),
+    g(len_eq("sig", r"\d+"), "exact signature size"),
     g(r"elemcmp:be\(sig\[0\.\.4\]\) Ge {pow2:h}", "leaf index q < 2^h, with 2^h taken from the parameter set's const h"),
-    g(r"elemcmp:be\(sig\[0\.\.4\]\) (Ne|Eq) \d+", "LM-OTS type code"),
-    g(r"elemcmp:be\(sig\[\d+\.\.\d+\]\) (Ne|Eq) \d+", "LMS type code"),
-    g(call(r"slice_eq", ANY, r"PublicKey::verify"), "recomputed root equals the public key root"),
+    g(r"elemcmp:be\(sig\[4\.\.8\]\) (Ne|Eq) {const:ots_type}", "LM-OTS type code (first word of the one-time signature)"),
+    g(r"elemcmp:be\(sig\[\d+\.\.\d+\]\) (Ne|Eq) {const:key_type}", "LMS type code"),
+    g(call(r"slice_eq", ANY, r"(PublicKey|jq255e|jq255s|gls254|LMS\w+)::\w+"), "recomputed root equals the public key root"),
 ])
 
 
@@ -238,6 +243,15 @@ CALL_ARGS = [
          props=["C07"], why="RFC 8032 5.2: Ed448ph uses dom4(1, ctx)"),
 ]
 
+
+FAILMASK = [
+    dict(fn=r"crrl::backend::(\w+::)+(GF255|GF448|GFsecp256k1|ModInt256|ModInt256ct|GFb127|GFb254)::(set_decode_ct|set_decode32|set_sqrt)|crrl::ed448::scalarmod::Scalar::(set_decode_ct|set_sqrt)",
+         props=["C05", "C18"],
+         why="documented: on failure the element is set to zero and 0 is returned -- so every data-dependent limb of the output must depend on every check fact that the returned status depends on"),
+    dict(fn=r"crrl::(ed25519|ed448|p256|secp256k1|jq255e|jq255s|ristretto255|decaf448)::Point::set_decode",
+         props=["C06"],
+         why="documented: on failure the point is set to the neutral -- every data-dependent coordinate must depend on every check fact of the status (gls254 is excluded: its status also covers the w = 0 encoding of the neutral, which the formulas map to the neutral without a mask)"),
+]
 
 INDEPENDENT = [
     dict(fn=r"crrl::(ed25519|ed448|p256|secp256k1|jq255e|jq255s|gls254|ristretto255|decaf448)::Point::set_mulgen", param=1, props=["C04"],
@@ -262,13 +276,13 @@ def main():
         for gt in fam_["gates"]:
             mn = None
             for fn in matched:
-                have = gates.gate_strings(eng.summary(fn), fam_["include_out"], eng.policy)
-                have = gates.field_strings(eng.summary(fn), gt["field"], eng.policy) if "field" in gt else have
+                have = gates.gate_strings(eng.summary(fn), fam_["include_out"], eng.policy, fn)
+                have = gates.field_strings(eng.summary(fn), gt["field"], eng.policy, fn) if "field" in gt else have
                 n = len([h for h in have if re.fullmatch(gates.subst_consts(f, fn, gt["src"]), h)])
                 mn = n if mn is None else min(mn, n)
             if not mn:
                 print("ZERO:", fam_["fn"], gt["src"], [fn["name"] for fn in matched if not any(
-                    re.fullmatch(gt["src"], h) for h in gates.gate_strings(eng.summary(fn), fam_["include_out"], eng.policy))][:3])
+                    re.fullmatch(gt["src"], h) for h in gates.gate_strings(eng.summary(fn), fam_["include_out"], eng.policy, fn))][:3])
                 problems += 1
                 continue
             d = dict(gt)
@@ -279,7 +293,7 @@ def main():
             gl.append(d)
         for fb in fam_["forbid"]:
             for fn in matched:
-                have = gates.gate_strings(eng.summary(fn), fam_["include_out"], eng.policy)
+                have = gates.gate_strings(eng.summary(fn), fam_["include_out"], eng.policy, fn)
                 if any(re.fullmatch(fb["src"], h) for h in have):
                     print("FORBID HIT on today's tree:", fn["name"], fb["src"])
                     problems += 1
@@ -287,7 +301,7 @@ def main():
                         include_out=fam_["include_out"], optional=fam_["optional"], matched_today=len(matched)))
     tab = dict(_comment="G3 required gates / G1 forbidden flows. Generated by tools/gen_gates.py from the conjunct classes written "
                "there (spec references in 'why'); 'min' = number of distinct matching check facts reaching the result on the "
-               "reviewed tree.", functions=out, call_args=CALL_ARGS, independent=INDEPENDENT)
+               "reviewed tree.", functions=out, call_args=CALL_ARGS, independent=INDEPENDENT, failmask=FAILMASK)
     json.dump(tab, open(os.path.join(os.path.dirname(os.path.dirname(os.path.abspath(__file__))), "tables", "gates.json"), "w"), indent=1)
     print("families", len(out), "gates", sum(len(x["gates"]) for x in out), "problems", problems)
 
